@@ -5,6 +5,9 @@ package main
 
 import (
 	"bytes"
+	"encoding/hex"
+	"regexp"
+	"sort"
 	"context"
 	"fmt"
 	"os"
@@ -174,7 +177,56 @@ func buildScript(prelude *Prelude, pre string, cmds []Cmd, only int, timeoutMs i
 		}
 	}
 	body := sb.String()
-	return hd.String() + prelude.render(body) + body
+	pre2 := prelude.render(body)
+	return hd.String() + renderLits(pre2+body, prelude.decls) + pre2[len(prelude.decls):] + body
+}
+
+var litRe = regexp.MustCompile(`lit_[0-9a-fh_]+`)
+
+// renderLits declares every string literal mentioned in text, with its
+// length, its bytes (short literals) and pairwise distinctness.
+func renderLits(text, decls string) string {
+	var sb strings.Builder
+	sb.WriteString(decls)
+	seen := map[string]bool{}
+	var syms []string
+	for _, m := range litRe.FindAllString(text, -1) {
+		if !seen[m] {
+			seen[m] = true
+			syms = append(syms, m)
+		}
+	}
+	sort.Strings(syms)
+	litMu.Lock()
+	defer litMu.Unlock()
+	var declared []string
+	for _, sym := range syms {
+		content, ok := litTable[sym]
+		if !ok {
+			// named by a theory axiom only: decode the hex form
+			if strings.HasPrefix(sym, "lit_h") {
+				continue
+			}
+			b, err := hex.DecodeString(sym[4:])
+			if err != nil {
+				continue
+			}
+			content = string(b)
+		}
+		fmt.Fprintf(&sb, "(declare-const %s Bytes)\n(assert (= (b.len %s) %d))\n", sym, sym, len(content))
+		if len(content) <= 80 {
+			for i := 0; i < len(content); i++ {
+				fmt.Fprintf(&sb, "(assert (= (b.at %s %d) %d))\n", sym, i, content[i])
+			}
+		}
+		declared = append(declared, sym)
+	}
+	if len(declared) > 1 {
+		fmt.Fprintf(&sb, "(assert (distinct %s b.empty))\n", strings.Join(declared, " "))
+	} else if len(declared) == 1 {
+		fmt.Fprintf(&sb, "(assert (not (= %s b.empty)))\n", declared[0])
+	}
+	return sb.String()
 }
 
 func runSolver(s Solver, script string, dir string, tag string, timeoutMs int, nchecks int) (string, float64, error) {
@@ -237,88 +289,146 @@ type solveCfg struct {
 }
 
 func solveAll(paths []*PathResult, cfg solveCfg) []*CheckResult {
+	// one solver process per obligation: incremental sessions accumulate
+	// quantifier instantiations and were measured to turn 0.03 s goals into
+	// 10 s timeouts
 	type job struct {
-		pi int
-		p  *PathResult
+		pi, ci int
+		p      *PathResult
+	}
+	var results []*CheckResult
+	var jobsList []job
+	for pi, p := range paths {
+		for ci, c := range p.Script {
+			if c.Check == nil {
+				continue
+			}
+			if c.Check.Trivial {
+				results = append(results, &CheckResult{Check: c.Check, Status: "trivial", Solver: "partial-evaluation"})
+				continue
+			}
+			jobsList = append(jobsList, job{pi, ci, p})
+		}
 	}
 	jobs := make(chan job)
 	var mu sync.Mutex
-	var results []*CheckResult
 	var wg sync.WaitGroup
 	for w := 0; w < cfg.workers; w++ {
 		wg.Add(1)
 		go func() {
 			defer wg.Done()
 			for j := range jobs {
-				rs := solvePath(j.pi, j.p, cfg)
+				r := solveOne(j.pi, j.ci, j.p, cfg)
 				mu.Lock()
-				results = append(results, rs...)
+				results = append(results, r)
 				mu.Unlock()
 			}
 		}()
 	}
-	for i, p := range paths {
-		jobs <- job{i, p}
+	for _, j := range jobsList {
+		jobs <- j
 	}
 	close(jobs)
 	wg.Wait()
 	return results
 }
 
-func solvePath(pi int, p *PathResult, cfg solveCfg) []*CheckResult {
-	var out []*CheckResult
-	n := 0
-	for _, c := range p.Script {
-		if c.Check != nil && !c.Check.Trivial {
-			n++
-		}
+// solveOne races the three back ends on one obligation; the first definitive
+// answer wins and the others are cancelled. A definitive "sat" from one solver
+// and "unsat" from another (seen only when both finish) is an engine error.
+func solveOne(pi, i int, p *PathResult, cfg solveCfg) *CheckResult {
+	ck := p.Script[i].Check
+	tmo := cfg.timeoutMs
+	if ck.ExpectSat {
+		tmo = 2000
 	}
-	for _, c := range p.Script {
-		if c.Check != nil && c.Check.Trivial {
-			out = append(out, &CheckResult{Check: c.Check, Status: "trivial", Solver: "partial-evaluation"})
-		}
+	type res struct {
+		si   int
+		ans  string
+		secs float64
+		out  string
+		file string
 	}
-	if n == 0 {
-		return out
+	ctx, cancel := context.WithCancel(context.Background())
+	defer cancel()
+	ch := make(chan res, len(solvers))
+	n := len(solvers)
+	if ck.ExpectSat {
+		n = 1
 	}
-	tag := fmt.Sprintf("p%d", pi)
-	script := buildScript(cfg.prelude, solvers[0].Pre, p.Script, -1, cfg.timeoutMs, false)
-	txt, secs, _ := runSolver(solvers[0], script, cfg.dir, tag, cfg.timeoutMs, n)
-	ans, _ := parseAnswers(txt)
-	per := secs / float64(n)
-	for i, c := range p.Script {
-		if c.Check == nil || c.Check.Trivial {
-			continue
-		}
-		ck := c.Check
-		a := ans[i]
-		r := &CheckResult{Check: ck, Solver: solvers[0].Name, Secs: per}
-		switch {
-		case ck.ExpectSat:
-			if a == "unsat" {
-				r.Status = "vacuous"
-			} else {
-				r.Status = "cover-ok"
+	for si := 0; si < n; si++ {
+		go func(si int) {
+			s := solvers[si]
+			q := buildScript(cfg.prelude, s.Pre, p.Script, i, tmo, !ck.ExpectSat)
+			tag := fmt.Sprintf("p%d_c%d_s%d", pi, i, si)
+			f := filepath.Join(cfg.dir, tag+".smt2")
+			os.WriteFile(f, []byte(q), 0644)
+			args := s.Cmd(f, tmo)
+			c2, cancel2 := context.WithTimeout(ctx, time.Duration(tmo+5000)*time.Millisecond)
+			defer cancel2()
+			cmd := exec.CommandContext(c2, args[0], args[1:]...)
+			var out bytes.Buffer
+			cmd.Stdout = &out
+			cmd.Stderr = &out
+			t0 := time.Now()
+			cmd.Run()
+			a, extra := parseAnswers(out.String())
+			ch <- res{si, a[i], time.Since(t0).Seconds(), extra[i], f}
+		}(si)
+	}
+	r := &CheckResult{Check: ck, Status: "unknown"}
+	var sat, unsat *res
+	var last res
+	for k := 0; k < n; k++ {
+		x := <-ch
+		last = x
+		if x.ans == "unsat" && unsat == nil {
+			xx := x
+			unsat = &xx
+			if !cfg.cross {
+				break
 			}
-		case a == "unsat":
-			r.Status = "discharged"
-			if cfg.cross {
-				// second opinion: a sat answer elsewhere is an engine error
-				q := buildScript(cfg.prelude, solvers[2].Pre, p.Script, i, cfg.timeoutMs, false)
-				t2, _, _ := runSolver(solvers[2], q, cfg.dir, fmt.Sprintf("%s_c%d_x", tag, i), cfg.timeoutMs, 1)
-				a2, _ := parseAnswers(t2)
-				if a2[i] == "sat" {
-					r.Status = "engine-error"
-					r.Output = "solver disagreement: z3 unsat, cvc5 sat"
-				}
-			}
-		default:
-			// not settled by the primary solver: pose it alone to every solver
-			r = retrySingle(pi, i, p, cfg, a, txt)
 		}
-		out = append(out, r)
+		if x.ans == "sat" && sat == nil {
+			xx := x
+			sat = &xx
+			if !cfg.cross && !ck.ExpectSat {
+				// give the others no more time: a model is a model
+				break
+			}
+		}
 	}
-	return out
+	cancel()
+	if ck.ExpectSat {
+		if last.ans == "unsat" {
+			r.Status = "vacuous"
+		} else {
+			r.Status = "cover-ok"
+		}
+		r.Solver = solvers[0].Name
+		r.Secs = last.secs
+		return r
+	}
+	switch {
+	case sat != nil && unsat != nil:
+		r.Status = "engine-error"
+		r.Output = fmt.Sprintf("solver disagreement on %s: %s sat, %s unsat", ck.Name, solvers[sat.si].Name, solvers[unsat.si].Name)
+	case unsat != nil:
+		r.Status = "discharged"
+		r.Solver = solvers[unsat.si].Name
+		r.Secs = unsat.secs
+	case sat != nil:
+		r.Status = "failed"
+		r.Solver = solvers[sat.si].Name
+		r.Secs = sat.secs
+		r.Model = sat.out
+		r.Query = sat.file
+	default:
+		r.Output = "no solver gave a definitive answer within the timeout"
+		r.Query = last.file
+		r.Secs = last.secs
+	}
+	return r
 }
 
 func retrySingle(pi, i int, p *PathResult, cfg solveCfg, firstAns, firstOut string) *CheckResult {
